@@ -231,6 +231,10 @@ class Tracker:
                         )
                     instance.src_instance.track = self._track_objects[instance.track_id]
                     instance.src_instance.tracking_score = instance.tracking_score
+                else:
+                    # not assigned by this tracker: do not return it with a track that was
+                    # attached upstream (re-tracking), it is untracked.
+                    instance.src_instance.track = None
                 new_pred_instances.append(instance.src_instance)
 
         else:
